@@ -275,10 +275,44 @@ def run(argv):
                 chk.corr_break("grain-text", case, mtxt, txt)
             else:
                 chk.traces += 1
+    late_override_check(chk, models)
     constants_check(chk)
     chemistrydata.user_binding_energy.clear()
     chemistrydata.user_photon_yield.clear()
     return chk.finish()
+
+
+def late_override_check(chk, models):
+    """user overrides are looked up when the rate is generated: a reaction whose rate was already generated once must follow
+    a later change of the user tables exactly like a reaction created after it"""
+    from naunet import chemistrydata
+    from naunet.species import Species
+    for mname, cls, prefix, ty in (("hh93", "leeds", "G", 201), ("hh93", "leeds", "G", 203), ("rr07", "uclchem", "#", 202),
+                                  ("rr07x", "uclchem", "#", 203), ("hh93i", "native", "#", 201)):
+        case = {"model": mname, "class": cls, "type": ty, "reactants": [prefix + "CO"], "sequence": "rate, update tables, rate again"}
+        try:
+            with silenced():
+                grain = models[mname](species=[Species("GRAIN0"), Species("GRAIN-")], group=0)
+                old = make_reaction(cls, ty, [prefix + "CO"], ["CO"], 1.0, prefix)
+                first = old.rateexpr(grain)
+                chemistrydata.update_binding_energy({prefix + "CO": 855.0})
+                chemistrydata.update_photon_yield({prefix + "CO": 7.5e-3})
+                again = old.rateexpr(grain)
+                fresh = make_reaction(cls, ty, [prefix + "CO"], ["CO"], 1.0, prefix).rateexpr(grain)
+        except Exception as e:
+            chk.hist["late-override-refused:" + type(e).__name__] += 1
+            continue
+        finally:
+            chemistrydata.user_binding_energy.pop(prefix + "CO", None)
+            chemistrydata.user_photon_yield.pop(prefix + "CO", None)
+        chk.count(("late-override", mname, cls, ty), nontrivial=True)
+        if again != fresh:
+            chk.violation({"kind": "stale-user-override", "model": mname, "type": ty},
+                          f"{mname} / {cls} type {ty}: after update_binding_energy / update_photon_yield the rate of an existing reaction "
+                          f"still uses the old species data", input=case, before_update=first[:200], after_update=again[:200],
+                          fresh_reaction=fresh[:200])
+        elif first == fresh:
+            chk.hist["late-override-without-effect"] += 1
 
 
 def constants_check(chk):
